@@ -70,7 +70,8 @@ class SpecMDP(TabularMarkovDecisionProcess):
                 shuffle_rng.shuffle(states)
                 shuffle_rng.shuffle(actions)
             self._state_list = tuple(states)
-            self._action_list = tuple(actions)
+            if explicit != "states":            # "states": the state list is given, the action list is left to be inferred
+                self._action_list = tuple(actions)
 
     def next_state_dist(self, s, a):
         return make_dist(self.sp.P[(s, a)], self.sp.kind[(s, a)], self.sp)
@@ -197,6 +198,8 @@ def build(sp, rep, shuffle_rng=None):
         return quick(sp, explicit=True, shuffle_rng=shuffle_rng)
     if rep == "annotated":
         return AnnotatedMDP(sp)
+    if rep == "subclass_explicit_states":
+        return SpecMDP(sp, explicit="states", shuffle_rng=shuffle_rng)
     raise ValueError(rep)
 
 
